@@ -9,3 +9,5 @@ pub mod mock;
 mod c15_lazy;
 #[path = "/verif/kani/vecdb/c17_codecs.rs"]
 mod c17_codecs;
+#[path = "/verif/kani/vecdb/model_vec.rs"]
+pub mod model_vec;
